@@ -989,6 +989,27 @@ impl Model {
                     Some(Some(c)) if c != UNREADABLE => c.clone(),
                     _ => continue,
                 };
+                // ... and where the name is shadowed (a do-block local, a parameter), the local
+                // value is what is read there
+                for (src, lit) in [
+                    (format!("do {{ {} = 0; return {} }}", k, k), "0"),
+                    (format!("(({}) => {})(0)", k, k), "0"),
+                    (format!("(({}?) => {})()", k, k), "null"),
+                    (format!("do {{ {} = 0; return ((zz) => {})(1) }}", k, k), "0"),
+                    (format!("(({}) => do {{ zz = {}; return zz }})(0)", k, k), "0"),
+                    (format!("[1] via (({}) => {})", k, k), "[1]"),
+                ] {
+                    let r = sess.probe(&src);
+                    let w = sess.probe(lit);
+                    self.stats.inc("probes");
+                    self.stats.inc("context_reads");
+                    if matches!(r.0, Status::Panic | Status::NotRun) || w.0 != Status::Ok {
+                        continue;
+                    }
+                    if r != w {
+                        o.context_mismatch.push(format!("`{}` gives {:?}, not {}: the local {} is not what is read where it shadows the binding", src, r, lit, k));
+                    }
+                }
                 for src in context_reads(k) {
                     let r = sess.probe(&src);
                     self.stats.inc("probes");
